@@ -338,7 +338,7 @@ Eval vm_compute in summary.
 
 
 META = {
-    "ready": False,
+    "ready": True,
     "category": "proof",
     "technique": "Rocq proof over goq-translated Go source + hand model, differential op-sequence conformance with in-package cursor presets",
     "text": "Ten theorems: for every uint32 cursor (also stale) and every pool size 1<=n<2^32 the round-robin index and the stored cursor are in [0,n); the k-th call of a fresh balancer uses (k-1) mod n for ALL k; cyclic order from any cursor; each slot once per n calls; in range under resizing; over every history of Set/Next/arbitrary cursor each Next returns a member of the list in force (RoundRobin, LeastLoad incl. minimum weight and stability, Random under the IntN contract). Index and cursor-update expressions are regenerated by goq from client/round_robin.go on every run; real balancers are driven through generated histories with the cursor preset in-package to stale and near-2^32 values and compared step by step (returned node, cursor, node order) with the Coq model; independent oracle incl. a goroutine stress for exact even distribution.",
